@@ -7,6 +7,7 @@ handed to the netlink socket are decoded with the KERNEL's own layout (offsetof/
 Reverse direction: ACQUIRE / EXPIRE / NLMSG_ERROR messages encoded with the kernel layout from symbolic field values are decoded
 by the real Xfrm.parse_message / send_recv to the same values; error != 0 <=> NetlinkError."""
 import json
+import sys
 import types
 
 from . import common, world, klayout
@@ -190,6 +191,85 @@ def h_create_sa(version, ipsec, mode, alg, plen, outer=None):
         ko = off + T['xfrm_algo']['alg_key'][0]
         P(core.SymBytes.lift(v.d[ko:ko + len(key)]) == key, f'attribute {ty}: key bytes')
     return ['create_sa', 'ok']
+
+
+def h_create_child_sa(ipsec, integ, keylen, role, mode):
+    """the REAL Xfrm.create_child_sa for an ESP / AH proposal: two XFRM_MSG_NEWSA requests; each carries exactly the algorithm attributes of its protocol
+    (AH: authentication only - the kernel refuses an AH state that carries XFRMA_ALG_CRYPT), the names of the negotiated transforms and the keys of its
+    direction and role; SPI, protocol, mode and addresses per direction"""
+    from symx import core
+    from ipaddress import ip_address, ip_network
+    eng = core.engine()
+    T = klayout.table()
+    K = T['const']
+    s = with_socket()
+    M = MX
+    Tr, Pr = M.Transform, M.Proposal
+    TS = sys.modules[Tr.__module__].TrafficSelector
+    integ_t = {'sha1': (Tr.IntegId.AUTH_HMAC_SHA1_96, b'hmac(sha1)', 20), 'sha256': (Tr.IntegId.AUTH_HMAC_SHA2_256_128, b'hmac(sha256)', 32),
+               'sha512': (Tr.IntegId.AUTH_HMAC_SHA2_512_256, b'hmac(sha512)', 64), 'md5': (Tr.IntegId.AUTH_HMAC_MD5_96, b'hmac(md5)', 16)}[integ]
+    trs = [Tr(Tr.Type.INTEG, integ_t[0]), Tr(Tr.Type.ESN, Tr.EsnId.NO_ESN)]
+    if ipsec == 'esp':
+        trs.insert(0, Tr(Tr.Type.ENCR, Tr.EncrId.ENCR_AES_CBC, keylen))
+    spi_out, spi_in = eng.sym_bytes('outbound_spi', 4), eng.sym_bytes('inbound_spi', 4)
+    prop = Pr(1, Pr.Protocol.ESP if ipsec == 'esp' else Pr.Protocol.AH, spi_out, trs)
+    tsi = TS.from_network(ip_network('10.1.0.0/16'), 0, TS.IpProtocol.TCP)
+    tsr = TS.from_network(ip_network('10.2.0.0/24'), 23, TS.IpProtocol.TCP)
+    ChildSa = MODS['ikesa'].ChildSa
+    mode = M.Mode(mode)
+    child = ChildSa(inbound_spi=spi_in, outbound_spi=spi_out, original_proposal=prop, proposal=prop, tsi=tsi, tsr=tsr, mode=mode, lifetime=-1)
+    ek = keylen // 8
+    keys = types.SimpleNamespace(sk_ei=eng.sym_bytes('sk_ei', ek), sk_er=eng.sym_bytes('sk_er', ek),
+                                 sk_ai=eng.sym_bytes('sk_ai', integ_t[2]), sk_ar=eng.sym_bytes('sk_ar', integ_t[2]))
+    me, peer = ip_address('192.0.2.1'), ip_address('192.0.2.2')
+    ike = types.SimpleNamespace(my_addr=me, peer_addr=peer)
+    is_init = role == 'initiator'
+    try:
+        M.Xfrm.create_child_sa(ike, child, keys, is_initiator=is_init)
+    except Exception as ex:     # noqa
+        return {'class': ['create_child_sa'], 'violation': f'create_child_sa raised {type(ex).__name__}: {ex}'}
+    if len(s.sent) != 2:
+        return {'class': ['create_child_sa'], 'violation': f'{len(s.sent)} requests sent for one CHILD_SA'}
+    P = eng.prove
+    hl = T['nlmsghdr']['__size']
+    # (datagram, spi, destination, source, encryption key, integrity key): outbound first
+    e_out, e_in = (keys.sk_ei, keys.sk_er) if is_init else (keys.sk_er, keys.sk_ei)
+    a_out, a_in = (keys.sk_ai, keys.sk_ar) if is_init else (keys.sk_ar, keys.sk_ai)
+    seen = {}
+    for data in s.sent:
+        v = klayout.View(data)
+        check_header(eng, v, data, 'XFRM_MSG_NEWSA')
+        body = v.at(hl)
+        idv = body.sub('xfrm_usersa_info', 'id')
+        d4 = core.SymBytes.lift(idv.raw('xfrm_id', 'daddr'))[:4]
+        d4 = core.SymBytes.lift(d4)
+        dst = bytes(d4.items) if d4.is_concrete() else None
+        which = 'out' if dst == peer.packed else ('in' if dst == me.packed else None)
+        if which is None or which in seen:
+            return {'class': ['create_child_sa'], 'violation': 'the two requests are not one SA towards the peer and one towards this endpoint'}
+        seen[which] = True
+        spi, ek_, ak_, src = (spi_out, e_out, a_out, me) if which == 'out' else (spi_in, e_in, a_in, peer)
+        P(core.SymBytes.lift(idv.raw('xfrm_id', 'spi')) == spi, f'{which}bound SA: SPI')
+        P(idv.u('xfrm_id', 'proto') == (K['IPPROTO_ESP'] if ipsec == 'esp' else K['IPPROTO_AH']), f'{which}bound SA: protocol')
+        P(core.SymBytes.lift(body.raw('xfrm_usersa_info', 'saddr'))[:4] == src.packed, f'{which}bound SA: source address')
+        P(body.u('xfrm_usersa_info', 'mode') == int(mode), f'{which}bound SA: mode')
+        at, bad = attrs(v, hl + ((T['xfrm_usersa_info']['__size'] + 3) // 4 * 4), len(data))
+        if bad:
+            return {'class': ['create_child_sa'], 'violation': 'NEWSA attribute framing: ' + bad}
+        want = {K['XFRMA_ALG_AUTH']: (integ_t[1], ak_)}
+        if ipsec == 'esp':
+            want[K['XFRMA_ALG_CRYPT']] = (b'cbc(aes)', ek_)
+        if set(at) != set(want):
+            return {'class': ['create_child_sa'], 'violation': f'{which}bound {ipsec.upper()} SA carries attributes {sorted(at)}, expected exactly {sorted(want)}'}
+        for ty, (name, key) in want.items():
+            off, ln = at[ty]
+            av = v.at(off)
+            nm = core.SymBytes.lift(av.raw('xfrm_algo', 'alg_name'))
+            P(nm == name + bytes(64 - len(name)), f'{which}bound SA attribute {ty}: algorithm name')
+            P(av.u('xfrm_algo', 'alg_key_len') == 8 * len(key), f'{which}bound SA attribute {ty}: key length in bits')
+            ko = off + T['xfrm_algo']['alg_key'][0]
+            P(core.SymBytes.lift(v.d[ko:ko + len(key)]) == key, f'{which}bound SA attribute {ty}: key bytes (direction / role)')
+    return ['create_child_sa', 'ok']
 
 
 def h_create_policy(version, direction, mode, plen, outer=None):
@@ -422,6 +502,13 @@ def build_instances(tier):
         for direction in (0, 1, 2):
             inst.append(Instance(f'create_policy v{version} in v{outer} tunnel dir={direction}', h_create_policy, (version, direction, 1, plens[0], outer),
                                  native=nat(h_create_policy)))
+        if version == 4:
+            for ipsec in ('esp', 'ah'):
+                for integ in (('sha256', 'sha512') if tier == 'quick' else ('sha1', 'sha256', 'sha512', 'md5')):
+                    for role in ('initiator', 'responder'):
+                        for keylen in ((256,) if tier == 'quick' or ipsec == 'ah' else (128, 256)):
+                            inst.append(Instance(f'create_child_sa {ipsec} {integ} aes{keylen} {role}', h_create_child_sa, (ipsec, integ, keylen, role, 1 if role == 'initiator' else 0),
+                                                 native=nat(h_create_child_sa)))
         inst.append(Instance(f'delete_sa + flush v{version}', h_delete_flush, (version,), native=nat(h_delete_flush)))
         inst.append(Instance(f'sequence of requests v{version}', h_sequence, (version,)))
         inst.append(Instance(f'parse ACQUIRE v{version}', h_acquire, (version,), native=nat(h_acquire)))
